@@ -383,6 +383,12 @@ pub(crate) struct LogReader {
     processed (e.g. during database recoveries).
     */
     current_block_offset: usize,
+
+    /**
+    True if a physical record that failed its integrity checks (e.g. a checksum mismatch) was
+    skipped while reading.
+    */
+    has_skipped_corrupted_records: bool,
 }
 
 /// Public methods
@@ -408,6 +414,7 @@ impl LogReader {
             initial_offset: initial_block_offset,
             current_cursor_position: initial_block_offset,
             current_block_offset: 0,
+            has_skipped_corrupted_records: false,
         };
 
         Ok(reader)
@@ -444,6 +451,10 @@ impl LogReader {
                         _ => return Err(physical_read_err),
                     }
                 }
+
+                // The physical record is damaged. It is skipped but the fact is remembered so that
+                // readers that cannot tolerate a gap (e.g. manifest recovery) can find out.
+                self.has_skipped_corrupted_records = true;
             } else {
                 let record = maybe_record.unwrap();
                 match record.block_type {
@@ -512,6 +523,11 @@ impl LogReader {
     */
     pub(crate) fn is_at_clean_end(&self) -> LogIOResult<bool> {
         Ok((self.current_cursor_position as u64) == self.len()?)
+    }
+
+    /// Returns true if damaged physical records were skipped by [`LogReader::read_record`].
+    pub(crate) fn has_skipped_corrupted_records(&self) -> bool {
+        self.has_skipped_corrupted_records
     }
 }
 
